@@ -122,6 +122,9 @@ func c05Build(side string, tag byte, chunks []int, end string, faults []c05Fault
 			conn.WScript[f.Pos] = kit.WStep{Accept: 5, Err: mk("write", kit.SysErr("write", syscall.ECONNRESET))}
 		case "w-timeout":
 			conn.WScript[f.Pos] = kit.WStep{Accept: 1, Err: mk("write", timeoutError{})}
+		case "w-block":
+			// the peer stopped reading: the Write parks until somebody closes this conn
+			conn.WScript[f.Pos] = kit.WStep{Block: true}
 		case "close-err":
 			conn.CloseErr = mk("close", kit.SysErr("close", syscall.EIO))
 		case "dl-err":
@@ -211,7 +214,31 @@ func firstDiff(a, b []byte) int {
 	return n
 }
 
+// c05Terminates filters out scenarios in which no direction can ever end: a blocked Write keeps its
+// direction from reading on, so the OTHER direction's source must reach its own end.
+func c05Terminates(cs c05Case) bool {
+	cb, vb := false, false
+	for _, f := range cs.Faults {
+		if f.Kind == "w-block" && f.Side == "client" {
+			cb = true // Down may park writing to the client; Up (client reads) still reaches the client's EOF
+		}
+		if f.Kind == "w-block" && f.Side == "covert" {
+			vb = true // Up may park writing to the covert; Down must end by itself
+		}
+	}
+	if cb && vb {
+		return false
+	}
+	if vb && cs.CovertEnd == "stall" {
+		return false
+	}
+	return true
+}
+
 func c05RunHalfPipes(rec *kit.Rec, cs c05Case) {
+	if !c05Terminates(cs) {
+		return
+	}
 	label := fmt.Sprintf("client%v covert%v end=%s faults=%v", cs.ClientChunks, cs.CovertChunks, cs.CovertEnd, cs.Faults)
 	rec.CaseCheap(label)
 	stationAddr := kit.TCPAddr("192.0.2.10", 443)
@@ -233,10 +260,24 @@ func c05RunHalfPipes(rec *kit.Rec, cs c05Case) {
 	select {
 	case <-done:
 	case <-time.After(45 * time.Second):
-		// stable-block confirmation: both directions parked in our conn's Read
+		// Has any direction ended at all?  A direction ends only after a Read / Write / SetDeadline
+		// returned an error (EOF included).  If none did, both peers are merely stalled (e.g. one side's
+		// send buffer is full while the other is silent): the relay is right to wait, nothing to judge.
+		ended := false
+		for _, c := range []*kit.ScriptConn{client, covert} {
+			for _, o := range c.Ops() {
+				if o.Err != "" && o.Op != "close" {
+					ended = true
+				}
+			}
+		}
 		gs := kit.InFunc(kit.Stacks(), "lib.halfPipe")
-		rec.Violation("teardown:relay-did-not-return", "one direction ended but the relay did not return (other side never torn down)",
-			map[string]interface{}{"case": label, "goroutines_in_halfPipe": len(gs), "client_ops": opsTail(client), "covert_ops": opsTail(covert)})
+		if ended {
+			rec.Violation("teardown:relay-did-not-return", "one direction ended but the relay did not return (other side never torn down)",
+				map[string]interface{}{"case": label, "goroutines_in_halfPipe": len(gs), "client_ops": opsTail(client), "covert_ops": opsTail(covert)})
+		} else {
+			rec.Inconclusive("scenario stalls without any direction ending (discarded)", label)
+		}
 		client.Close()
 		covert.Close()
 		<-done
@@ -308,7 +349,7 @@ func c05FaultUniverse(maxPos int) []c05Fault {
 				u = append(u, c05Fault{side, k, p})
 			}
 		}
-		for _, k := range []string{"w-short", "w-epipe", "w-rst-partial", "w-timeout"} {
+		for _, k := range []string{"w-short", "w-epipe", "w-rst-partial", "w-timeout", "w-block"} {
 			for p := 0; p <= maxPos; p++ {
 				u = append(u, c05Fault{side, k, p})
 			}
